@@ -257,6 +257,11 @@ func randRows(r *core.Rng) []mbRow {
 }
 
 func (C06) Gen(r *core.Rng, tier string, emit func(string)) {
+	if tier == "thorough" {
+		emit = cliDup(emit, []string{"convert"}, 7, 200)
+	} else {
+		emit = cliDup(emit, []string{"convert"}, 7, 20)
+	}
 	nRes, nConv := 3000, 120
 	if tier == "thorough" {
 		nRes, nConv = 100000, 3000
@@ -447,7 +452,7 @@ func fixCenterZoom(meta [][2]string, rows []mbRow) [][2]string {
 	return out
 }
 
-func convertOnce(dedup bool, meta [][2]string, rows []mbRow) (readArchive, error, error) {
+func convertOnce(cli bool, dedup bool, meta [][2]string, rows []mbRow) (readArchive, error, error) {
 	in := scratchFile(".mbtiles")
 	out := scratchFile(".pmtiles")
 	staleOutput(out)
@@ -462,7 +467,7 @@ func convertOnce(dedup bool, meta [][2]string, rows []mbRow) (readArchive, error
 	}
 	defer os.Remove(tmp.Name())
 	defer tmp.Close()
-	if err := pmtiles.Convert(discardLogger, in, out, dedup, tmp); err != nil {
+	if err := opConvert(cli, in, out, dedup, tmp); err != nil {
 		return readArchive{}, err, nil
 	}
 	b, err := os.ReadFile(out)
@@ -500,7 +505,8 @@ func convertCanon(ra readArchive, format string, srcBlobs map[string]bool) strin
 }
 
 func (C06) RunGo(line string) string {
-	t := strings.Fields(line)
+	cliMode, t := splitCLI(strings.Fields(line))
+	_ = cliMode
 	switch t[0] {
 	case "resolve":
 		body, _ := splitTok(t[3:], "G")
@@ -517,7 +523,7 @@ func (C06) RunGo(line string) string {
 			return "bad-case"
 		}
 		meta := fixCenterZoom(parsePairs(metaT), rows)
-		ra, err, _ := convertOnce(t[1] == "1", meta, rows)
+		ra, err, _ := convertOnce(cliMode, t[1] == "1", meta, rows)
 		if err != nil {
 			if strings.Contains(err.Error(), "no tiles") {
 				return "no-tiles"
@@ -541,7 +547,8 @@ func (C06) NonTrivial(line string) bool {
 }
 
 func (C06) Branch(line, goOut string) string {
-	t := strings.Fields(line)
+	cliMode, t := splitCLI(strings.Fields(line))
+	_ = cliMode
 	if t[0] == "convert" {
 		return "convert " + t[2] + " dedup=" + t[1]
 	}
@@ -569,7 +576,8 @@ func exactE7(s string) (int64, bool) {
 }
 
 func (C06) Oracle(line, goOut string) string {
-	t := strings.Fields(line)
+	cliMode, t := splitCLI(strings.Fields(line))
+	_ = cliMode
 	if strings.HasPrefix(goOut, "panic") {
 		return goOut
 	}
@@ -607,7 +615,7 @@ func (C06) Oracle(line, goOut string) string {
 		}
 		var ras [2]readArchive
 		for i, dd := range []bool{true, false} {
-			ra, err, verr := convertOnce(dd, meta, rows)
+			ra, err, verr := convertOnce(cliMode, dd, meta, rows)
 			if err != nil {
 				nonEmpty := false
 				for _, r := range rows {
